@@ -638,7 +638,10 @@ def h6_keyderiv(rev=3, timeout=300, part=None, pwlens=None, keybytes=None, **kw)
                                 "ast_rewritten": patched}, part=part)
 
 
-def h6_r5(rev=5, timeout=200, **kw):
+LONG_PASSWORDS = ["", "a", "a" * 127, "a" * 128, "a" * 200, "\u00e9" * 63 + "a", "\u00e9" * 64, "\u00e9" * 80, "\u00e9" + "a" * 130, "a" * 126 + "\u00e9", "\u20ac" * 50]
+
+
+def h6_r5(rev=5, timeout=200, concrete=False, **kw):
     """Algorithm 2.A (AESV3): either password recovers the file key stored in UE / OE.  rev=5: SHA-256 hash (Adobe extension level 3); rev=6: the hash is Algorithm 2.B,
     here one more uninterpreted function (H6_r6hash checks _r6_password against 2.B), the password is assumed to be in SASLprep normal form"""
     import pdfminer.pdfdocument as pd
@@ -649,19 +652,28 @@ def h6_r5(rev=5, timeout=200, **kw):
         def __init__(self, b): self.b = b
         def __bool__(self): return len(self.b) > 0
         def encode(self, enc): return self.b
+        def __getitem__(self, k): raise symx.Unsupported("character indexing of the symbolic password (only its UTF-8 bytes are modelled)")
+        def __len__(self): raise symx.Unsupported("character count of the symbolic password")
+        def __getattr__(self, name): raise symx.Unsupported("str.%s on the symbolic password" % name)
 
     def fn(ex):
         uf, Hash, Sha256, stream = _install_uf(ex, pd)
         uf.injective = True
         lo, hi = (0, 255) if rev == 5 else (33, 126)        # rev 6: printable ASCII, on which SASLprep is the identity
-        upw = SByI(sbytes.sym_bytes(ex, "u", [0, 1, 3][ex.choice(3, "ulen")], lo, hi).els)
-        opw = SByI(sbytes.sym_bytes(ex, "o", [0, 1, 3][ex.choice(3, "olen")], lo, hi).els)
+        if concrete:                                        # real str passwords around the 127-byte limit (UTF-8 encoded, THEN truncated: ISO 32000-2 7.6.4.3.2)
+            ustr, ostr = LONG_PASSWORDS[ex.choice(len(LONG_PASSWORDS), "upw")], LONG_PASSWORDS[ex.choice(len(LONG_PASSWORDS), "opw")]
+            upw, opw = SByI(list(ustr.encode("utf-8")[:127])), SByI(list(ostr.encode("utf-8")[:127]))
+        else:
+            ustr = ostr = None
+            upw = SByI(sbytes.sym_bytes(ex, "u", [0, 1, 3][ex.choice(3, "ulen")], lo, hi).els)
+            opw = SByI(sbytes.sym_bytes(ex, "o", [0, 1, 3][ex.choice(3, "olen")], lo, hi).els)
         fkey = SByI(sbytes.sym_bytes(ex, "k", 32).els)
         uvs, uks, ovs, oks = (SByI(sbytes.sym_bytes(ex, nm, 8).els) for nm in ("uvs", "uks", "ovs", "oks"))
         sha = lambda *parts: Sha256(sum(parts[1:], parts[0])).digest()
         if rev == 6:
-            import pdfminer._saslprep as sp
-            sp.saslprep = lambda p, **k: p
+            if not concrete:
+                import pdfminer._saslprep as sp
+                sp.saslprep = lambda p, **k: p
             r6 = lambda self, pw, salt, vector=None: uf.apply("sha256", [[b"2.B"], pw, salt, vector if vector is not None else b""], 32)     # shares sha256's collision freedom
             pd.PDFStandardSecurityHandlerV5._r6_password = r6
             sha = lambda pw, salt, vector=None: r6(None, pw, salt, vector)
@@ -674,18 +686,24 @@ def h6_r5(rev=5, timeout=200, **kw):
         OE._ciph = ("aes_cbc", OE._ciph[1], iv0, fkey)
         hd = _mk_handler(pd.PDFStandardSecurityHandlerV5, r=rev, v=5, u=U, o=O, ue=UE, oe=OE, o_hash=O[:32], o_validation_salt=O[32:40], o_key_salt=O[40:],
                          u_hash=U[:32], u_validation_salt=U[32:40], u_key_salt=U[40:])
-        info = {"upw": upw, "opw": opw, "fkey": fkey, "salts": [uvs, uks, ovs, oks]}
+        info = {"upw": upw, "opw": opw, "fkey": fkey, "salts": [uvs, uks, ovs, oks], "ustr": ustr, "ostr": ostr}
         for who, pw in (("user", upw), ("owner", opw)):
-            got = hd.authenticate(PW(pw))
+            try:
+                got = hd.authenticate(PW(pw) if not concrete else (ustr if who == "user" else ostr))
+            except symx.Violation:
+                raise
+            except Exception as e:
+                ex.require(False, "authenticating the %s password raised %s: %s" % (who, type(e).__name__, e), who=who, **info)
             ex.require(got is not None, "the %s password is rejected" % who, who=who, **info)
             ex.require(len(got) == 32 and SBy.of(got) == fkey, "the %s password recovers a key other than the file key" % who, who=who, **info)
 
     def conc(m, info):
         mb = lambda x: sbytes.model_bytes(m, x)
-        return {"rev": rev, "upw": mb(info["upw"]), "opw": mb(info["opw"]), "fkey": mb(info["fkey"]), "salts": [mb(x) for x in info["salts"]], "who": info["who"]}
+        return {"rev": rev, "upw": mb(info["upw"]), "opw": mb(info["opw"]), "fkey": mb(info["fkey"]), "salts": [mb(x) for x in info["salts"]], "who": info["who"],
+                "ustr": info["ustr"], "ostr": info["ostr"]}
     H = pd.PDFStandardSecurityHandlerV5
     return core.run_symx("H6_r5", fn, [H.authenticate, H._password_hash, H._r5_password, H._normalize_password],
-                         {"revision": rev, "passwords": "user and owner, 0 / 1 / 3 symbolic bytes", "salts, file key": "symbolic bytes", "primitives": "sha256 / AES-CBC as uninterpreted functions"},
+                         {"revision": rev, "passwords": ("user and owner from %d real strings around the 127-byte UTF-8 limit" % len(LONG_PASSWORDS)) if concrete else "user and owner, 0 / 1 / 3 symbolic bytes", "salts, file key": "symbolic bytes", "primitives": "sha256 / AES-CBC as uninterpreted functions"},
                          timeout, concretize=conc, shims={"namespace_shims": shims + ["sha256 / Cipher -> uninterpreted functions"]})
 
 
@@ -939,8 +957,9 @@ def replay(harness, inp):
         from pdfminer.psparser import LIT
         param = {"V": 5, "R": rev, "P": -4, "O": O, "U": U, "OE": OE, "UE": UE, "Length": 256, "CF": {"StdCF": {"CFM": LIT("AESV3")}}, "StmF": LIT("StdCF"), "StrF": LIT("StdCF")}
         pw = upw if inp["who"] == "user" else opw
+        given = inp.get("ustr") if inp["who"] == "user" else inp.get("ostr")
         try:
-            s_pw = pw.decode("utf-8")
+            s_pw = given if given is not None else pw.decode("utf-8")
         except UnicodeDecodeError:
             return None                      # not a password a caller can pass as str
         try:
@@ -955,14 +974,16 @@ def jobs(tier):
     if tier == "quick":
         KD = [Job("H6_keyderiv:R2", "h6_keyderiv", {"rev": 2}, 600, "H6_keyderiv")] + [Job("H6_keyderiv:R4:%d" % k, "h6_keyderiv", {"rev": 4, "part": [k, 4, 3]}, 600, "H6_keyderiv") for k in range(4)] + \
              [Job("H6_keyderiv:R3:%d" % k, "h6_keyderiv", {"rev": 3, "part": [k, 6, 4]}, 600, "H6_keyderiv") for k in range(6)] + \
-             [Job("H6_r5", "h6_r5", {}, 300), Job("H6_r5:R6", "h6_r5", {"rev": 6}, 300, "H6_r5")] + \
+             [Job("H6_r5", "h6_r5", {}, 300), Job("H6_r5:R6", "h6_r5", {"rev": 6}, 300, "H6_r5"), Job("H6_r5:long", "h6_r5", {"concrete": True}, 300, "H6_r5"),
+              Job("H6_r5:R6:long", "h6_r5", {"rev": 6, "concrete": True}, 300, "H6_r5")] + \
              [Job("H6_r6hash:%s" % pt, "h6_r6hash", {"pattern": pt}, 600, "H6_r6hash") for pt in ("cycle", "mixed")]
     else:               # more password lengths (around the 32-byte pad), every key length that is a multiple of 8 bits, all five SHA-selection patterns with up to 4 extra rounds
         PW, KB = [0, 1, 31, 32, 33], [5, 6, 7, 8, 10, 12, 13, 16]
         KD = [Job("H6_keyderiv:R2:%d" % k, "h6_keyderiv", {"rev": 2, "pwlens": PW, "part": [k, 2, 3]}, 1200, "H6_keyderiv") for k in range(2)] + \
              [Job("H6_keyderiv:R4:%d" % k, "h6_keyderiv", {"rev": 4, "pwlens": PW, "part": [k, 10, 5]}, 1800, "H6_keyderiv") for k in range(10)] + \
              [Job("H6_keyderiv:R3:%d" % k, "h6_keyderiv", {"rev": 3, "pwlens": [0, 1, 33], "keybytes": KB, "part": [k, 16, 6]}, 1800, "H6_keyderiv") for k in range(16)] + \
-             [Job("H6_r5", "h6_r5", {}, 300), Job("H6_r5:R6", "h6_r5", {"rev": 6}, 300, "H6_r5")] + \
+             [Job("H6_r5", "h6_r5", {}, 300), Job("H6_r5:R6", "h6_r5", {"rev": 6}, 300, "H6_r5"), Job("H6_r5:long", "h6_r5", {"concrete": True}, 300, "H6_r5"),
+              Job("H6_r5:R6:long", "h6_r5", {"rev": 6, "concrete": True}, 300, "H6_r5")] + \
              [Job("H6_r6hash:%s:%d" % (pt, k), "h6_r6hash", {"pattern": pt, "extra": 4, "part": [k, 2, 3]}, 1800, "H6_r6hash") for pt in sorted(R6_PATTERNS) for k in range(2)]
     J = KD + [Job("H1_permissions", "h1_permissions", {}, 60), Job("H2_where", "h2_where", {}, 150), Job("H4_keys", "h4_keys", {}, 150), Job("H5_metadata", "h5_metadata", {}, 60)]
     for k in range(2):
